@@ -214,12 +214,19 @@ func publishImpl(ctx context.Context, c *BaseClient, message *Message, dup bool)
 			}
 			select {
 			case <-cli.connClosed:
-				return wrapErrorWithRetry(ErrClosedTransport, retryPublish2, "waiting PUBCOMP")
+				err = ErrClosedTransport
 			case <-ctx.Done():
-				return wrapErrorWithRetry(ctx.Err(), retryPublish2, "waiting PUBCOMP")
+				err = ctx.Err()
 			case <-chPubComp:
+				return nil
 			}
-			return nil
+			select {
+			case <-chPubComp:
+				// PUBCOMP had arrived as well; the exchange is complete and must not be retried.
+				return nil
+			default:
+			}
+			return wrapErrorWithRetry(err, retryPublish2, "waiting PUBCOMP")
 		}
 		return retryPublish2(ctx, c)
 	}
